@@ -122,6 +122,10 @@ func init() {
 			}
 		},
 	}
+	Props["C13"] = PropDef{
+		Gen:     GenStmtFuzzScript,
+		Oracles: func() []Oracle { return []Oracle{&AccountingOracle{}} },
+	}
 	Props["C02"] = PropDef{
 		Gen: func(t *rapid.T, thorough bool) *Script {
 			o := mixedOpts(thorough)
